@@ -5,6 +5,7 @@ import (
 	"flag"
 	"fmt"
 	"os"
+	"time"
 
 	"github.com/canopy-network/canopy/lib"
 	"verifharness/bftsim"
@@ -161,35 +162,6 @@ func liveMode(runs, ticks int, maxRounds uint64, outDir string) {
 	st := &liveStats{Rounds: map[string]int{}, Locked: map[string]int{}, Strategy: map[string]int{}}
 	r := sim.NewRng(sim.SeedFromEnv())
 	cw := &sim.CaseWriter{OutDir: outDir, Name: "c15", Imports: "From V Require Import U64 Extracted Bft BftNet BftLive.", CaseType: "live_case", MFun: "live_mismatches", VFun: "live_violations", PerShard: 200}
-	for i := 0; i < runs; i++ {
-		rr := r.Fork()
-		_, meta, _ := randomRun(rr, 10+rr.Intn(ticks))
-		h := heal(rr, lastRun.n, lastRun.correct, lastRun.byz, maxRounds)
-		if h.Skipped != "" {
-			st.Skipped++
-			continue
-		}
-		cw.Add(healLit(lastRun.powers, lastRun.byz, h, maxRounds), map[string]any{"prefix": meta, "start_rounds": h.StartRounds, "committed": h.Committed, "rounds_needed": h.RoundsNeeded,
-			"virtual_ms": h.VirtualMS, "locked_replicas": h.Locked, "distinct_locks": h.DistinctLocks})
-		st.Cases++
-		if !h.Committed && os.Getenv("VERIF_DEBUG") != "" {
-			fmt.Printf("NEVER: %v byz=%d strategy=%v startRounds=%v\n", lastRun.powers, lastRun.byz, meta["strategy"], h.StartRounds)
-			for i, rp := range lastRun.n.Reps {
-				fmt.Printf("   replica %d root %d round %d phase %s lock %s proposer %d rejected %v\n", i, rp.B.RootHeight, rp.B.Round, rp.B.Phase, lastRun.n.LockOf(i), lastRun.n.IndexOf(rp.B.ProposerKey), rp.Rejected)
-			}
-		}
-		if h.Locked > 0 {
-			st.Distinct++
-		}
-		if h.Committed {
-			st.Rounds[fmt.Sprint(h.RoundsNeeded)]++
-		} else {
-			st.Rounds["never"]++
-		}
-		st.Locked[fmt.Sprint(h.DistinctLocks)]++
-		st.Strategy[fmt.Sprint(meta["strategy"])]++
-	}
-	cw.Close(st)
 	// synchronous rounds from injected aligned states (the setting of the theorem), compared with model/BftLive.v
 	cs := &sim.CaseWriter{OutDir: outDir, Name: "c15sync", Imports: "From V Require Import U64 Extracted Bft BftNet BftLive.", CaseType: "sync_case", MFun: "sync_mismatches", VFun: "sync_violations", PerShard: 60}
 	syncN, syncLocked, syncMulti, syncVoid := 0, 0, 0, 0
@@ -214,6 +186,41 @@ func liveMode(runs, ticks int, maxRounds uint64, outDir string) {
 		}
 	}
 	cs.Close(st)
+	healStart, never := time.Now(), 0
+	for i := 0; i < runs; i++ {
+		// the healed runs stop early when they have used their real-time budget or three runs never committed (enough to report)
+		if time.Since(healStart) > time.Duration(8*runs)*time.Second || never >= 3 {
+			break
+		}
+		rr := r.Fork()
+		_, meta, _ := randomRun(rr, 10+rr.Intn(ticks))
+		h := heal(rr, lastRun.n, lastRun.correct, lastRun.byz, maxRounds)
+		if h.Skipped != "" {
+			st.Skipped++
+			continue
+		}
+		cw.Add(healLit(lastRun.powers, lastRun.byz, h, maxRounds), map[string]any{"prefix": meta, "start_rounds": h.StartRounds, "committed": h.Committed, "rounds_needed": h.RoundsNeeded,
+			"virtual_ms": h.VirtualMS, "locked_replicas": h.Locked, "distinct_locks": h.DistinctLocks})
+		st.Cases++
+		if !h.Committed && os.Getenv("VERIF_DEBUG") != "" {
+			fmt.Printf("NEVER: %v byz=%d strategy=%v startRounds=%v\n", lastRun.powers, lastRun.byz, meta["strategy"], h.StartRounds)
+			for i, rp := range lastRun.n.Reps {
+				fmt.Printf("   replica %d root %d round %d phase %s lock %s proposer %d rejected %v\n", i, rp.B.RootHeight, rp.B.Round, rp.B.Phase, lastRun.n.LockOf(i), lastRun.n.IndexOf(rp.B.ProposerKey), rp.Rejected)
+			}
+		}
+		if h.Locked > 0 {
+			st.Distinct++
+		}
+		if h.Committed {
+			st.Rounds[fmt.Sprint(h.RoundsNeeded)]++
+		} else {
+			st.Rounds["never"]++
+			never++
+		}
+		st.Locked[fmt.Sprint(h.DistinctLocks)]++
+		st.Strategy[fmt.Sprint(meta["strategy"])]++
+	}
+	cw.Close(st)
 	fmt.Printf("c15: %d synchronous rounds from injected states (%d with locked replicas, %d with locks on different certificates, %d void)\n", syncN, syncLocked, syncMulti, syncVoid)
 	fmt.Printf("c15: %d healed runs (%d cases with locked replicas in all, %d skipped: committed in the prefix); rounds needed after the heal %v; distinct locks at the heal %v\n", st.Cases-syncN, st.Distinct, st.Skipped, st.Rounds, st.Locked)
 }
